@@ -121,7 +121,7 @@ func newKD(dim int, pts []V) (kdTree, *kdNode) {
 		func() []V { return conv(t.Slice()) }}, kdOf2(t)
 }
 
-var kdSizes = []int{0, 1, 2, 2, 3, 3, 4, 4, 5, 5, 7, 7, 8, 8, 16, 16, 33, 33, 100, 200}
+var kdSizes = []int{0, 1, 2, 3, 3, 4, 4, 5, 5, 7, 7, 8, 8, 16, 16, 16, 33, 33, 33, 100, 200}
 
 func (g *G) genKD(n int) {
 	for i, k := 0, 0; i < n; k++ {
@@ -145,7 +145,7 @@ func sortedPts(ps []V) []V {
 func (g *G) kdCase(dim int) int {
 	kind := "kd" + strconv.Itoa(dim)
 	n := g.pickI(kdSizes)
-	span := g.pickI([]int{1, 3, 3, 6})
+	span := g.pickI([]int{1, 3, 3, 6, 6, 10})
 	pts := make([]V, n)
 	mode := g.Rng.Intn(8) // 0: all identical, 1: collinear along an axis, else: small integer cloud
 	line := g.Rng.Intn(dim)
@@ -210,17 +210,45 @@ func (g *G) kdCase(dim int) int {
 		}
 	}
 
+	// across: a query point p obtained from a tree point q by moving it, along the split axis of one of
+	// q's ancestors, to the other side of that ancestor's split plane: the traversal descends away from
+	// q first and only the "other half-space" test can find it.  Returns p and the distance |p−q|.
+	across := func() (V, float64) {
+		for try := 0; try < 20; try++ {
+			nd := nodes[g.Rng.Intn(len(nodes))]
+			var sub []*kdNode
+			less := nd.lt != nil && (nd.ge == nil || g.p(0.5))
+			if less {
+				nd.lt.nodes(&sub)
+			} else {
+				nd.ge.nodes(&sub)
+			}
+			if len(sub) == 0 {
+				continue
+			}
+			q := sub[g.Rng.Intn(len(sub))]
+			p := q.c
+			if less { // q[axis] < split: put p on the split plane or beyond
+				p[nd.axis] = nd.c[nd.axis] + g.pickF([]float64{0, 0, 0.25, 0.5, 1})
+			} else { // q[axis] >= split: put p strictly below the split plane
+				p[nd.axis] = nd.c[nd.axis] - g.pickF([]float64{0.25, 0.5, 1, 2})
+			}
+			return p, math.Abs(p[nd.axis] - q.c[nd.axis])
+		}
+		return nodes[0].c, 0
+	}
+
 	// queryPoint: aimed at the pruning boundary
 	queryPoint := func() V {
 		var p V
 		for a := 0; a < dim; a++ {
-			p[a] = float64(g.Rng.Intn(4*span+9)-4) / 4 // quarter grid in [-1, span+1]
+			p[a] = float64(g.Rng.Intn(4*span+17)-8) / 4 // quarter grid in [-2, span+2]
 		}
 		if n == 0 {
 			return p
 		}
 		nd := nodes[g.Rng.Intn(len(nodes))]
-		switch g.Rng.Intn(6) {
+		switch g.Rng.Intn(9) {
 		case 0: // exactly on a split plane
 			p[nd.axis] = nd.c[nd.axis]
 		case 1: // a tree point
@@ -234,6 +262,8 @@ func (g *G) kdCase(dim int) int {
 			for a := 0; a < dim; a++ {
 				p[a] = float64(g.Rng.Intn(span + 1))
 			}
+		case 5, 6, 7:
+			p, _ = across()
 		}
 		return p
 	}
@@ -255,7 +285,7 @@ func (g *G) kdCase(dim int) int {
 	}
 
 	// nn
-	for k := 0; k < 3; k++ {
+	for k := 0; k < 6; k++ {
 		p := queryPoint()
 		if n == 0 {
 			if pan := guard(func() { tree.nn(p) }); pan == "" {
@@ -287,7 +317,7 @@ func (g *G) kdCase(dim int) int {
 	}
 
 	// knn
-	for _, k := range []int{0, 1, 2, 3, n - 1, n, n + 1, 2*n + 3} {
+	for _, k := range []int{0, 1, 1, 2, 3, 1 + g.Rng.Intn(n+1), 1 + g.Rng.Intn(n+1), n - 1, n, n + 1, 2*n + 3} {
 		if k < 0 || !g.p(0.6) {
 			continue
 		}
@@ -331,7 +361,7 @@ func (g *G) kdCase(dim int) int {
 	}
 
 	// sphere: radius exactly the distance to a tree point (touching, `<=`), slightly smaller, or random
-	for k := 0; k < 4; k++ {
+	for k := 0; k < 6; k++ {
 		p := queryPoint()
 		r := float64(g.Rng.Intn(9)) / 4
 		if n > 0 && g.p(0.7) {
@@ -340,6 +370,10 @@ func (g *G) kdCase(dim int) int {
 			p = nd.c
 			p[g.Rng.Intn(dim)] += off * g.pickF([]float64{1, -1})
 			r = off
+			if g.p(0.5) { // the only point within reach lies across a split plane
+				p, off = across()
+				r = off
+			}
 			switch g.Rng.Intn(4) {
 			case 0:
 				r = off - 0.25
